@@ -87,30 +87,47 @@ Definition prec (o : binop) : nat :=
 
 Definition strip (ts : list tok) : list tok := filter (fun t => match t with TSp => false | _ => true end) ts.
 
+(* comma-separated expressions (at least one), given the expression parser; [g] bounds the number of elements *)
+Fixpoint args_loop (pe : list tok -> option (expr * list tok)) (g : nat) (ts : list tok) : option (list expr * list tok) :=
+  match g with
+  | O => None
+  | S g' =>
+    match pe ts with
+    | Some (e, TComma :: r') => match args_loop pe g' r' with Some (es, r'') => Some (e :: es, r'') | None => None end
+    | Some (e, r') => Some ([e], r')
+    | None => None
+    end
+  end.
+(* the rest of a property list after "k :" : value, then either "]" or ", k2 : ..." ; returns the flat key/value list *)
+Fixpoint pairs_loop (pe : list tok -> option (expr * list tok)) (g : nat) (k : expr) (ts : list tok) : option (list expr * list tok) :=
+  match g with
+  | O => None
+  | S g' =>
+    match pe ts with
+    | Some (v, TComma :: r2) =>
+      match pe r2 with
+      | Some (k2, TColon :: r3) =>
+        match pairs_loop pe g' k2 r3 with
+        | Some (rest, r4) => Some (k :: v :: rest, r4)
+        | None => None
+        end
+      | _ => None
+      end
+    | Some (v, TRB :: r2) => Some ([k; v], r2)
+    | _ => None
+    end
+  end.
+
 (* fuel bounds the recursion depth; every call passes fuel - 1 *)
 Fixpoint parse_u (fuel : nat) (ts : list tok) {struct fuel} : option (expr * list tok) :=
   match fuel with
   | O => None
   | S f =>
-    (* the binary-operator loop of an expression that started with [a] *)
-    let parse_e := fun (minlvl : nat) (ts : list tok) =>
+    (* a full expression: a unary expression, then the binary-operator loop *)
+    let parse_e := fun (ts : list tok) =>
       match parse_u f ts with
-      | Some (a, r) => parse_loop f minlvl a r
+      | Some (a, r) => parse_loop f 1 a r
       | None => None
-      end in
-    let parse_args := fix go (g : nat) (ts : list tok) : option (list expr * list tok) :=
-      match g with
-      | O => None
-      | S g' =>
-        match parse_u f ts with
-        | Some (a, r) =>
-          match parse_loop f 1 a r with
-          | Some (e, TComma :: r') => match go g' r' with Some (es, r'') => Some (e :: es, r'') | None => None end
-          | Some (e, r') => Some ([e], r')
-          | None => None
-          end
-        | None => None
-        end
       end in
     match ts with
     | TInt z :: r => Some (EInt z, r)
@@ -129,42 +146,25 @@ Fixpoint parse_u (fuel : nat) (ts : list tok) {struct fuel} : option (expr * lis
       | _ => None
       end
     | TLP :: r =>
-      match parse_e 1%nat r with
+      match parse_e r with
       | Some (e, TRP :: r') => Some (e, r')
       | _ => None
       end
     | TFun fn :: TLP :: TRP :: r => Some (ECall fn [], r)
     | TFun fn :: TLP :: r =>
-      match parse_args f r with Some (es, TRP :: r') => Some (ECall fn es, r') | _ => None end
+      match args_loop parse_e f r with Some (es, TRP :: r') => Some (ECall fn es, r') | _ => None end
     | TLFun fn :: TLP :: r =>
-      match parse_args f r with Some (es, TRP :: r') => Some (ELCall fn es, r') | _ => None end
+      match args_loop parse_e f r with Some (es, TRP :: r') => Some (ELCall fn es, r') | _ => None end
     | TLFun fn :: r => Some (ELCall fn [], r)
     | TLB :: TColon :: TRB :: r => Some (EPList [], r)
     | TLB :: TRB :: r => Some (EList [], r)
     | TLB :: r =>
       (* a linear list, or a property list when the first element is followed by a colon *)
-      match parse_e 1%nat r with
+      match parse_e r with
       | Some (k, TColon :: r1) =>
-        (fix pairs (g : nat) (k : expr) (ts : list tok) : option (expr * list tok) :=
-           match g with
-           | O => None
-           | S g' =>
-             match parse_e 1%nat ts with
-             | Some (v, TComma :: r2) =>
-               match parse_e 1%nat r2 with
-               | Some (k2, TColon :: r3) =>
-                 match pairs g' k2 r3 with
-                 | Some (EPList rest, r4) => Some (EPList (k :: v :: rest), r4)
-                 | _ => None
-                 end
-               | _ => None
-               end
-             | Some (v, TRB :: r2) => Some (EPList [k; v], r2)
-             | _ => None
-             end
-           end) f k r1
+        match pairs_loop parse_e f k r1 with Some (kv, r') => Some (EPList kv, r') | None => None end
       | Some (e, TComma :: r1) =>
-        match parse_args f r1 with Some (es, TRB :: r') => Some (EList (e :: es), r') | _ => None end
+        match args_loop parse_e f r1 with Some (es, TRB :: r') => Some (EList (e :: es), r') | _ => None end
       | Some (e, TRB :: r') => Some (EList [e], r')
       | _ => None
       end
